@@ -368,7 +368,7 @@ Proof.
     assert (Hi0 : kinv (clear_events s)) by (apply kinv_clear; exact Hi).
     destruct (sub_step_handle _ _ _ Hi0 H) as [A|A]; destruct (sess_step_handle _ _ _ Hi0 H) as [B|B]; split;
       auto using sub_evo_clear, sess_evo_clear, sub_new_clear, sess_new_clear.
-  - intros [= <-]. split; left.
+  - destruct (forallb pchange_valid _); [|discriminate]. intros [= <-]. split; left.
     + apply sub_evo_frame; apply (fold_left_inv (fun y => sub_count y = sub_count s /\ subs y = subs s /\ payouts y = payouts s));
         try (intros y c Hy; pose proof (apply_pchange_keeps y c); keeps_solve); repeat split; reflexivity.
     + apply sess_evo_frame; apply (fold_left_inv (fun y => sess_count y = sess_count s /\ sessions y = sessions s));
@@ -471,7 +471,7 @@ Proof.
     + left. apply (evo_h_plan_update_status (clear_events s)) in H; [exact H|]. eapply kinv_plan_frame; [..|apply (ki_plan _ Hi)]; reflexivity.
     + left. apply plan_evo_frame; unfold h_plan_link in H; res_inv; reflexivity.
     + left. apply plan_evo_frame; unfold h_plan_unlink in H; res_inv; reflexivity.
-  - intros [= <-]. left.
+  - destruct (forallb pchange_valid _); [|discriminate]. intros [= <-]. left.
     apply plan_evo_frame; apply (fold_left_inv (fun y => plan_count y = plan_count s /\ plan_act y = plan_act s /\ plan_inact y = plan_inact s));
       try (intros y c Hy; pose proof (apply_pchange_keeps y c); keeps_solve); repeat split; reflexivity.
   - destruct (end_block _) as [se| |] eqn:H; try discriminate. intros [= <-]. left.
